@@ -17,6 +17,7 @@ structure DState where
   acc : Bytes := []
   pol : Option Policy := none
   srv : Srv := Srv.init 1
+  stalled : List Nat := []
 
 def insertSorted (x : String × String) : List (String × String) → List (String × String)
   | [] => [x]
@@ -101,22 +102,26 @@ def step (d : DState) (line : String) : DState × String :=
   | ["codec"] => ({ d with cst := .none, cbuf := [] }, "ok")
   | ["srv", l, _] =>
     match l.toNat? with
-    | some k => ({ d with srv := Srv.init k }, "ok")
+    | some k => ({ d with srv := Srv.init k, stalled := [] }, "ok")
     | none => (d, "bad-op")
   | ["open", i] =>
     match i.toNat? with
     | some k => ({ d with srv := d.srv.step (.connect k) }, "ok")
     | none => (d, "bad-op")
+  | ["stall", i, _] =>
+    match i.toNat? with
+    | some k => (if d.srv.served.contains k then { d with stalled := k :: d.stalled } else d, "ok")
+    | none => (d, "bad-op")
   | ["end", i, _] =>
     match i.toNat? with
-    | some k => ({ d with srv := d.srv.step (.finish k) }, "ok")
+    | some k => ({ d with srv := d.srv.step (.finish k), stalled := d.stalled.erase k }, "ok")
     | none => (d, "bad-op")
   | "idle" :: keep =>
     let ks := keep.filterMap (·.toNat?)
     let victims := d.srv.active.filter (fun i => !ks.contains i)
-    ({ d with srv := victims.foldl (fun s i => s.step (.finish i)) d.srv }, "ok")
+    ({ d with srv := victims.foldl (fun s i => s.step (.finish i)) d.srv, stalled := d.stalled.filter (fun i => ks.contains i) }, "ok")
   | ["probe"] =>
-    (d, ("served " ++ " ".intercalate ((d.srv.served.toArray.qsort (· < ·)).toList.map toString)).trimAsciiEnd.toString)
+    (d, ("served " ++ " ".intercalate (((d.srv.served.filter (fun i => !d.stalled.contains i)).toArray.qsort (· < ·)).toList.map toString)).trimAsciiEnd.toString)
   | "evict" :: ks =>
     match d.pol with
     | none => (d, "bad-op")
